@@ -36,14 +36,14 @@ func init() {
 }
 
 type txAnchors struct {
-	impl, mgr                      *types.Named
-	active, mode, hasR, hasW, buf  *types.Var
-	commit, rollback, relR, relW   *ssa.Function
-	begin                          *ssa.Function
-	errClosed                      *ssa.Global
-	roConst                        *types.Const
-	applyBatch                     *ssa.Function
-	ok                             bool
+	impl, mgr                     *types.Named
+	active, mode, hasR, hasW, buf *types.Var
+	commit, rollback, relR, relW  *ssa.Function
+	begin                         *ssa.Function
+	errClosed                     *ssa.Global
+	roConst                       *types.Const
+	applyBatch                    *ssa.Function
+	ok                            bool
 }
 
 func getTxAnchors(c *Ctx, r *Reporter) *txAnchors {
